@@ -39,7 +39,7 @@ WORST = {}
 
 
 def _track(label, err, tol, rtol):
-    if label and err.size:
+    if label and err.size and np.all(np.isfinite(tol)):
         w = float(np.nanmax(err / tol)) * rtol
         WORST[label] = max(WORST.get(label, 0.0), w)
 
@@ -437,6 +437,9 @@ def adaptive_pair(ck, n):
             if c["strat"] == "fixedinterval":
                 c["strat"] = "fixedpoint"
         bound_field(c, 1)
+        if ck.rng.random() < 0.5:
+            c["init_mode"] = "exact"
+            c["std"] = [Fr(0)] * (c["q"] + 1)
         c["base"] = None
         c["damp"] = Fr(0)
         c["routine"] = "adaptive"
@@ -462,12 +465,17 @@ def adaptive_pair(ck, n):
         total = int(np.sum(steps)) if steps is not None and "error" not in rd else -1
         ck.count("ad:" + json.dumps(jc, sort_keys=True), nontrivial=total > 3,
                  sample={"adaptive": {k: jc[k] for k in ("q", "d", "ord", "strat", "calib", "lin", "f", "adaptive")}, "num_steps": steps},
-                 ad_strat=c["strat"], ad_calib=cal, ad_lin=c["lin"], ad_d=c["d"], ad_total_steps=("<=3" if total <= 3 else "4..20" if total <= 20 else ">20"))
+                 ad_strat=c["strat"], ad_calib=cal, ad_lin=c["lin"], ad_d=c["d"], ad_init=c["init_mode"], ad_total_steps=("<=3" if total <= 3 else "4..20" if total <= 20 else ">20"))
         if check_errors(ck, c, (rd, ri), "dense-iso", mode):
             continue
         rep = {"case": jc, "num_steps_dense": rd["num_steps"], "num_steps_iso": ri["num_steps"]}
         if rd["num_steps"] != ri["num_steps"]:
-            ck.report(f"C14.dense-iso.{mode}.num_steps", f"{describe(c)}: accepted step counts differ: dense {rd['num_steps']} vs isotropic {ri['num_steps']}", rep)
+            if "error" not in rt and not rt.get("timeout") and rt["num_steps"] != rd["num_steps"]:
+                # the rounding-size twin of the dense run also takes other steps: an error norm within rounding of the
+                # acceptance threshold (typically thousands of steps) -- not a disagreement of the factorisations
+                ck.hist.setdefault("adaptive_runs_on_an_acceptance_boundary(skipped)", {"n": 0})["n"] += 1
+            else:
+                ck.report(f"C14.dense-iso.{mode}.num_steps", f"{describe(c)}: accepted step counts differ: dense {rd['num_steps']} vs isotropic {ri['num_steps']}", rep)
             continue
         if not (finite(rd) and finite(ri)):
             if finite(rd) != finite(ri):
@@ -481,14 +489,18 @@ def adaptive_pair(ck, n):
         key = "<1e3" if max(nm.max(), nc) < 1e3 * 2.0 ** -48 else "<1e6" if max(nm.max(), nc) < 1e6 * 2.0 ** -48 else ">=1e6"
         ck.hist["adaptive_noise_amplification(twin/2^-48)"][key] = ck.hist["adaptive_noise_amplification(twin/2^-48)"].get(key, 0) + 1
         K = 50.0
-        # two different floating-point programs drive the step-size controller: 1e-6 + 50 x the twin's deviation
-        p = cmp_mean(md, mi, sd, rtol=1e-6, label="adaptive dense-iso mean (beyond 50x twin noise)", extra=K * nm[None, :])
+        # Two different floating-point programs drive the step-size controller through an error estimate that is
+        # proportional to the residual u' - f(u) (cancellation: with a non-zero initial covariance the controller first
+        # shrinks the step to ~1e-5, where the residual is 1e-7 of its operands).  Exact initial conditions avoid that
+        # regime: 1e-7; otherwise 1e-4; both plus 50 x the twin's deviation.
+        base = 1e-7 if c["init_mode"] == "exact" else 1e-4
+        p = cmp_mean(md, mi, sd, rtol=base, label=f"adaptive dense-iso mean, init {'exact' if base < 1e-5 else 'inexact'} (beyond 50x twin noise)", extra=K * nm[None, :])
         if p:
             ck.report(f"C14.dense-iso.{mode}.mean", f"{describe(c)}: {p} [twin noise {nm.max():.2e}]", rep)
-        p = cmp_cov(Pd, Pi, sd, rtol=1e-6 + K * nc, label="adaptive dense-iso cov (beyond 50x twin noise)")
+        p = cmp_cov(Pd, Pi, sd, rtol=base + K * nc, label=f"adaptive dense-iso cov, init {'exact' if base < 1e-5 else 'inexact'} (beyond 50x twin noise)")
         if p:
             ck.report(f"C14.dense-iso.{mode}.cov", f"{describe(c)}: {p} [twin noise {nc:.2e}]", rep)
-        if sd_.shape != si.shape or not np.all(np.abs(sd_ - si) <= (1e-6 + K * ns) * np.abs(sd_) + sfloor(sd_, si)):
+        if sd_.shape != si.shape or not np.all(np.abs(sd_ - si) <= (base + K * ns) * np.abs(sd_) + sfloor(sd_, si)):
             ck.report(f"C14.dense-iso.{mode}.scale", f"{describe(c)}: output scales {sd_.ravel().tolist()} vs {si.ravel().tolist()}", rep)
 
 
@@ -518,7 +530,7 @@ def main():
               "block-diagonal dynamic-mode values are NOT compared with dense; (2) TS1 on componentwise-decoupled problems: block-diagonal = d scalar "
               "dense solves (means, covariances, per-dimension scales; optional per-dimension base scales); (3) TS1 on problems whose Jacobian is "
               "c_i(t) I (or d=1, nonlinear): isotropic = dense; (4) adaptive solve_adaptive_save_at with the real error estimate and controllers: "
-              "dense vs isotropic: identical num_steps; values and scales within 1e-6 + 50x the deviation of a rounding-size-perturbed twin of the dense run "
+              "dense vs isotropic: identical num_steps; values and scales within 1e-7 (exact initial condition; 1e-4 otherwise: the error estimate is a cancellation-prone residual once the controller has shrunk the step) + 50x the deviation of a rounding-size-perturbed twin of the dense run "
               "(the two floating-point programs drive the controller through a cancellation-prone residual); non-trivial: d>1 (1), all (2,3), more than 3 steps (4); distinct by full input")
 
 
